@@ -27,12 +27,13 @@ func (area) Name() string { return "ingest" }
 
 // Stable keys of the recorded findings (known_findings.json).
 const (
-	keyDupProto  = "dup-key-survivor-depends-on-tag-order:proto"
-	keyDupFlat   = "dup-key-survivor-depends-on-tag-order:flat"
-	keyDupInflux = "dup-key-survivor-depends-on-tag-order:influx"
-	keyStaleMark = "pooled-batch-stale-out-of-range-mark-drops-in-window-row"
-	keyFlatNs    = "flat-row-without-namespace-ignores-request-namespace"
-	keyInfluxInf = "influx-inf-spelled-field-dropped-rest-of-row-stored"
+	keyDupProto      = "dup-key-survivor-depends-on-tag-order:proto"
+	keyDupFlat       = "dup-key-survivor-depends-on-tag-order:flat"
+	keyDupInflux     = "dup-key-survivor-depends-on-tag-order:influx"
+	keyStaleMark     = "pooled-batch-stale-out-of-range-mark-drops-in-window-row"
+	keyFlatNs        = "flat-row-without-namespace-ignores-request-namespace"
+	keyInfluxInf     = "influx-inf-spelled-field-dropped-rest-of-row-stored"
+	keyInfluxMaxTags = "influx-ignores-max-tags-per-metric"
 )
 
 func (area) Run(c *core.Ctx) error {
@@ -56,6 +57,7 @@ func (area) Run(c *core.Ctx) error {
 			case i == 2:
 				witnessFlatNamespace(c)
 				witnessInfluxInf(c)
+				witnessInfluxMaxTags(c)
 			case i%4 == 0:
 				caseBatch(c, r)
 			case i%8 == 3:
@@ -272,6 +274,7 @@ func caseSingle(c *core.Ctx, r *rand.Rand, bad int) {
 		if k == "nan-field" || k == "inf-field" {
 			checkInfluxNonFinite(c, r, cf, m)
 		}
+		checkRejectionAgreement(c, r, cf, m, k)
 		return
 	}
 	o, mism := observe(&row)
@@ -496,6 +499,91 @@ func checkInfluxNonFinite(c *core.Ctx, r *rand.Rand, cf *cfg, m *lmetric) {
 		key = keyInfluxInf
 	}
 	c.Fail(key, fmt.Sprintf("line %q has a non-finite field (%s): the protobuf path rejects the metric, influx stores a row with %d of its %d fields", line, strings.Join(used, ","), stored, len(m.fields)))
+}
+
+// checkRejectionAgreement: a metric the protobuf path rejects is an invalid metric in every form: the
+// raw flat row and the influx line (where those forms can carry it) must be rejected as a whole too.
+// Not judged — the two validations differ by design of lindb/common's RowBuilder, recorded in the
+// design note: a histogram with exactly two buckets (protobuf wants more than two, RowBuilder at
+// least two) and a histogram whose values and bounds differ in length (the flat decoder reads the
+// common prefix).
+func checkRejectionAgreement(c *core.Ctx, r *rand.Rand, cf *cfg, m *lmetric, kind string) {
+	tagKind := kind == "tag-key-too-long" || kind == "tag-value-too-long"
+	if tagKind {
+		// the flat and influx paths do not length-check the request's ENRICHED tags (protobuf does): observation, not judged
+		for _, t := range cf.enriched {
+			if cf.lim.maxTagKey > 0 && len(t.k) > cf.lim.maxTagKey || cf.lim.maxTagVal > 0 && len(t.v) > cf.lim.maxTagVal {
+				c.Branch("reject-agreement/not-judged-enriched-tag-over-limit")
+				return
+			}
+		}
+	}
+	if m.flatExpressible() {
+		switch {
+		case m.cf != nil && len(m.cf.values) != len(m.cf.bounds):
+			c.Branch("reject-agreement/flat-not-judged-length-mismatched-histogram")
+		case m.cf != nil && len(m.cf.values) == 2:
+			c.Branch("reject-agreement/flat-not-judged-two-bucket-histogram")
+		default:
+			b, err := parseFlat(cf, []*lmetric{m})
+			c.Branch("reject-agreement/flat-checked")
+			if err == nil && b != nil && b.Len() > 0 {
+				c.Fail("flat-accepts-what-proto-rejects:"+kind, fmt.Sprintf("the protobuf path rejects %s (%s) under limits %+v, the same metric as a flat row is stored", m.enc(), kind, cf.lim))
+			}
+		}
+	}
+	line, ok := m.toInfluxSp(func(v fval) string {
+		return nonFiniteSpellings[v.kind][r.Intn(len(nonFiniteSpellings[v.kind]))]
+	})
+	if !ok || kind == "nan-field" || kind == "inf-field" { // non-finite fields: checkInfluxNonFinite
+		return
+	}
+	if tagKind || kind == "too-many-tags" {
+		// the line parser collects tags into a map (recorded duplicate-key finding): with a repeated key it
+		// sees fewer / other tags than the protobuf path validates
+		seen := map[string]bool{}
+		for _, t := range m.tags {
+			if seen[t.k] {
+				c.Branch("reject-agreement/influx-not-judged-repeated-key")
+				return
+			}
+			seen[t.k] = true
+		}
+	}
+	ns := m.ns
+	if cf.reqNs != "" {
+		ns = cf.reqNs
+	}
+	b, _ := parseInflux(cf, ns, []string{line})
+	c.Branch("reject-agreement/influx-checked")
+	if b != nil && b.Len() > 0 {
+		key := "influx-accepts-what-proto-rejects:" + kind
+		if kind == "too-many-tags" {
+			key = keyInfluxMaxTags
+		}
+		c.Fail(key, fmt.Sprintf("the protobuf path rejects the metric (%s) under limits %+v with %d enriched tags, its line-protocol form %q is stored", kind, cf.lim, len(cf.enriched), line))
+	}
+}
+
+// witnessInfluxMaxTags: three distinct tags under max-tags-per-metric = 2.
+func witnessInfluxMaxTags(c *core.Ctx) {
+	cf := &cfg{lim: limits{maxName: 256, maxField: 128, maxTagKey: 128, maxTagVal: 1024, maxTags: 2, maxFields: 256}}
+	m := &lmetric{name: "cpu", ns: "ns", ts: 1700000000000, tags: []*ltag{{"a", "1"}, {"b", "2"}, {"c", "3"}}, fields: []*lfield{{name: "f_last", typ: 1, val: num(1)}}}
+	c.Op(cf.enc(), "ok")
+	var row metric.BrokerRow
+	err, _, _ := convertProto(cf, m, &row)
+	k := "accepted"
+	if err != nil {
+		k = "err " + errKind(err)
+	}
+	c.Op("conv "+m.enc(), k)
+	if fb, err := parseFlat(cf, []*lmetric{m}); err == nil && fb != nil && fb.Len() > 0 {
+		c.Fail("flat-accepts-what-proto-rejects:too-many-tags", "flat stores a row with 3 tags under max-tags-per-metric = 2")
+	}
+	line, _ := m.toInflux()
+	if b, _ := parseInflux(cf, "ns", []string{line}); b != nil && b.Len() > 0 {
+		c.Fail(keyInfluxMaxTags, fmt.Sprintf("max-tags-per-metric = 2: the protobuf and flat paths reject the metric with tags a,b,c (%s), its line-protocol form %q is stored", k, line))
+	}
 }
 
 func sent(cf *cfg, m *lmetric) []ltag {
